@@ -418,6 +418,14 @@ def _set_aggregates(context, resource_provider, provided_aggregates,
 
     if increment_generation:
         resource_provider.increment_generation()
+    else:
+        # Without the generation update nothing in this transaction notices
+        # that the provider has been deleted since it was loaded.
+        sel = sa.select(_RP_TBL.c.id).where(_RP_TBL.c.id == rp_id)
+        if not context.session.execute(sel).first():
+            raise exception.NotFound(
+                'No resource provider with uuid %s found'
+                % resource_provider.uuid)
 
 
 def _add_traits_to_provider(ctx, rp_id, to_add):
